@@ -1,6 +1,7 @@
 package main
 
 import (
+	"bytes"
 	"context"
 	"encoding/json"
 	"errors"
@@ -20,6 +21,7 @@ import (
 	"github.com/jamf/regatta/storage/table"
 	"github.com/jamf/regatta/storage/table/fsm"
 	"github.com/lni/dragonboat/v4"
+	dbsm "github.com/lni/dragonboat/v4/statemachine"
 )
 
 func init() { register("c14", runC14) }
@@ -561,6 +563,57 @@ func runC14(args []string) error {
 		return err
 	}
 
+	// ---- (b2) a replica of the metadata shard that lags behind and is caught up by a snapshot: its catalogue is the
+	// leader's afterwards - a table deleted in the meantime does not come back ----
+	{
+		lead := newSchedStore()
+		lm := table.NewManager(nil, nil, &gate{id: 90, store: lead}, table.Config{NodeID: 90, Table: table.TableConfig{BlockCacheSize: 1024, TableCacheSize: 1024}})
+		for _, n := range []string{"alpha", "beta"} {
+			if _, err := lm.VerifCreateTable(n); err != nil {
+				return err
+			}
+		}
+		lag := kv.NewLFSM()(1, 2)
+		if _, err := lag.Update(append([]dbsm.Entry{}, lead.log...)); err != nil { // the replica has seen this much
+			return err
+		}
+		if err := lm.DeleteTable("alpha"); err != nil {
+			return err
+		}
+		if _, err := lm.VerifCreateTable("gamma"); err != nil {
+			return err
+		}
+		sctx, err := lead.fsm.PrepareSnapshot()
+		if err != nil {
+			return err
+		}
+		var sbuf bytes.Buffer
+		if err := lead.fsm.SaveSnapshot(sctx, &sbuf, nil, nil); err != nil {
+			return err
+		}
+		if err := lag.RecoverFromSnapshot(&sbuf, nil, nil); err != nil {
+			return err
+		}
+		follower := &schedStore{fsm: lag, next: lead.next, enq: make(chan struct{}, 16)}
+		fm := table.NewManager(nil, nil, &gate{id: 91, store: follower}, table.Config{NodeID: 91, Table: table.TableConfig{BlockCacheSize: 1024, TableCacheSize: 1024}})
+		names := func(m *table.Manager) string {
+			ts, err := m.GetTables()
+			if err != nil {
+				return "error: " + err.Error()
+			}
+			var l []string
+			for _, t := range ts {
+				l = append(l, fmt.Sprintf("%s=%d", t.Name, t.ClusterID))
+			}
+			sort.Strings(l)
+			return strings.Join(l, ",")
+		}
+		sum.Evaluations++
+		if a, b := names(lm), names(fm); a != b {
+			sum.violate(200000, "replicas of the catalogue disagree after one of them was caught up by a snapshot", map[string]any{"history": "create alpha, beta (replica B has seen this); delete alpha; create gamma; snapshot of the leader installed on B"}, fmt.Sprintf("leader lists {%s}, B lists {%s}", a, b))
+		}
+	}
+
 	// ---- (c) real Manager on a NodeHost ----
 	if err := c14RealManager(sum); err != nil {
 		return err
@@ -765,6 +818,32 @@ func c14RealManager(sum *Summary) error {
 	}
 	if err := tm.DeleteTable("aa"); err != nil {
 		sum.violate(0, "deleting a table removed another table whose name starts with its name", in("create ab, a-archive, a.b, aa; delete a; delete aa"), err.Error())
+	}
+	// names that a path clean-up would swallow: "." and ".." are table names like any other
+	for _, n := range []string{".", ".."} {
+		tn, err := tm.CreateTable(n)
+		if err != nil {
+			sum.violate(0, "a valid table name cannot be created", in("create "+n), err.Error())
+			continue
+		}
+		noteID("create "+n, tn.ClusterID)
+		lt, err := tm.GetTables()
+		if err != nil {
+			return err
+		}
+		found := false
+		for _, t := range lt {
+			found = found || t.Name == n
+		}
+		if !found {
+			sum.violate(0, "listing does not reflect precisely the created-and-not-deleted tables", in("list after create "+n), fmt.Sprintf("table %q is missing from the listing", n))
+		}
+		if _, err := tm.GetTable(n); err != nil {
+			sum.violate(0, "a created table cannot be looked up", in("get "+n), err.Error())
+		}
+		if err := tm.DeleteTable(n); err != nil {
+			sum.violate(0, "a created table cannot be deleted", in("delete "+n), err.Error())
+		}
 	}
 	ts, err := tm.GetTables()
 	if err != nil {
